@@ -349,7 +349,7 @@ func runC13(c *fw.Case) (o fw.Outcome) {
 		}
 	}
 	a.nas = rbytes(r, pick(r, 0, 1, 2, 127, 128, 255, 256, 2047, 5000, r.Intn(300)))
-	a.ipv4 = pick(r, "0.0.0.0", "255.255.255.255", "10.0.0.1", "192.168.61.3", "127.0.0.1", net.IP(rbytes(r, 4)).String())
+	a.ipv4 = pick(r, "0.0.0.0", "255.255.255.255", "10.0.0.1", "192.168.61.3", "127.0.0.1", net.IP(rbytes(r, 4)).String(), ipv4Class(r).String(), ipv4Class(r).String())
 	a.plmn = rbytes(r, 3)
 	a.gnbBits = uint64(22 + r.Intn(11))
 	a.gnbID = rbytes(r, 4)
